@@ -1066,7 +1066,12 @@ impl<K: EnrKey> FromStr for Enr<K> {
         let bytes = URL_SAFE_NO_PAD
             .decode(decode_string)
             .map_err(|e| format!("Invalid base64 encoding: {e:?}"))?;
-        Self::decode(&mut bytes.as_ref()).map_err(|e| format!("Invalid ENR: {e:?}"))
+        let mut remaining = bytes.as_ref();
+        let enr = Self::decode(&mut remaining).map_err(|e| format!("Invalid ENR: {e:?}"))?;
+        if !remaining.is_empty() {
+            return Err("Invalid ENR: trailing data after the record".to_string());
+        }
+        Ok(enr)
     }
 }
 
